@@ -214,6 +214,81 @@ def check_sizes(c, rec):
                                      f"s={s} p={p} d={d}", region=name)
 
 
+# ---- pooling over extreme operand values: -inf / +inf / the most negative finite number next to padding, and
+#      float16 data whose window SUM leaves the float16 range while its mean does not ---------------------------
+@st.composite
+def pool_extreme_cases(draw):
+    name = draw(st.sampled_from(["max_pool1d", "max_pool2d", "avg_pool1d", "avg_pool2d"]))
+    c = draw(ops.full_case(nnops.BY_NAME[name], need_grad=False))
+    c["mode"] = name[:3]
+    n = int(np.prod(c["xs"][0]["shape"]))
+    c["special"] = [draw(st.sampled_from(["-inf", "-inf", "lowest", "+inf", "keep", "keep"])) for _ in range(min(n, 24))]
+    c["all_special"] = draw(st.integers(0, 3)) == 0          # every element -inf / lowest: only the padding could win
+    c["half"] = draw(st.sampled_from([True, True, False]))
+    c["mag"] = draw(st.sampled_from([20000.0, 30000.0, 60000.0, 1000.0]))
+    return c
+
+
+def check_pool_extreme(c, rec):
+    shp = c["xs"][0]["shape"]
+    args = c["args"]
+    dims = len(shp) - 2
+    mode = c["mode"]
+    op = nnops.BY_NAME[f"{mode}_pool{dims}d"]
+    if mode == "max":
+        dt = np.dtype(c["dtype"])
+        x = gen.arr(c["xs"][0]["v"], shp, dt)
+        flat = x.reshape(-1)
+        lowest = np.finfo(dt).min
+        for i in range(flat.size):
+            sp = c["special"][i % len(c["special"])]
+            if c["all_special"]:
+                sp = "-inf" if sp != "lowest" else "lowest"
+            if sp == "-inf":
+                flat[i] = -np.inf
+            elif sp == "+inf":
+                flat[i] = np.inf
+            elif sp == "lowest":
+                flat[i] = lowest
+        rec.tag("max_pool_with_inf")
+    else:
+        dt = np.dtype(np.float16 if c["half"] else c["dtype"])
+        base = gen.arr(c["xs"][0]["v"], shp, np.float64)
+        # same sign everywhere (alternating per channel), magnitude near the top of the float16 range
+        sign = np.where((np.arange(shp[1]) % 2 == 0), 1.0, -1.0).reshape([1, shp[1]] + [1] * dims)
+        x = (sign * (c["mag"] if dt == np.float16 else 1.0) * (1.0 + np.abs(base) / 64.0)).astype(dt)
+        rec.tag("avg_pool_float16_large" if dt == np.float16 else "avg_pool_same_sign")
+    try:
+        out = op.apply([Tensor(x.copy())], args)
+    except Exception:  # noqa: BLE001  (acceptance is judged by the ordinary sub-checks)
+        rec.skip = "forward_rejected"
+        return
+    with np.errstate(all="ignore"):
+        want = np.asarray(op.ref([x.astype(np.float64)], args))
+    got = np.asarray(out.data)
+    rec.nontrivial(True)
+    ctx = f"op={op.name} shape={shp} args={args} dtype={dt}"
+    if got.shape != want.shape:
+        raise Violation("shape", f"result shape {got.shape} != reference {want.shape}; {ctx}", region=op.name)
+    if out.dtype != dt:
+        raise Violation("dtype", f"result dtype {out.dtype} for {dt} data; {ctx}", region=op.name)
+    if mode == "max":
+        # max pooling selects an element: exact, including infinities ("padding never wins")
+        if not np.array_equal(got.astype(np.float64), want):
+            i = tuple(np.argwhere(got.astype(np.float64) != want)[0])
+            raise Violation("value", f"max pooling: output{list(i)} = {got[i]} but the window's largest REAL element is {want[i]} "
+                                     f"(padding never wins, whatever the values); {ctx}", region=op.name)
+    else:
+        w16 = want.astype(dt).astype(np.float64)           # the exact mean rounded once to the data's dtype
+        tol = 4 * float(np.finfo(dt).eps) * np.maximum(np.abs(w16), 1e-30)
+        bad = ~(np.abs(got.astype(np.float64) - w16) <= tol)
+        bad &= np.isfinite(w16)
+        if bad.any():
+            i = tuple(np.argwhere(bad)[0])
+            raise Violation("value", f"average pooling: output{list(i)} = {got[i]} but the window mean is {want[i]} (representable "
+                                     f"in {dt}); {ctx}", region=op.name)
+
+
 def subchecks():
     subs = []
     heavy = {"conv1d", "conv2d", "max_pool2d", "avg_pool2d", "fold", "unfold"}
@@ -223,6 +298,7 @@ def subchecks():
                              quick=q, thorough=3000, shards_quick=2, shards_thorough=4))
     subs.append(SubCheck("conv_same_valid", check_same, same_cases, quick=400, thorough=4000))
     subs.append(SubCheck("no_window", check_nowindow, nowindow_cases, quick=300, thorough=3000))
+    subs.append(SubCheck("pool_extreme_values", check_pool_extreme, pool_extreme_cases, quick=400, thorough=4000, shards_thorough=2))
     subs.append(SubCheck("bce_clamp", check_bce_edge, bce_edge_cases, quick=300, thorough=3000))
     subs.append(SubCheck("size_grid", check_sizes, None, enum=enum_sizes, exhaustive=True, shards_quick=4,
                          shards_thorough=8))
